@@ -84,6 +84,23 @@ static std::vector<std::unique_ptr<Arg>> parse_args(const std::string& field)
 
 using F = nitro::detail::formatter<char>;
 
+// Earlier traffic on the same thread: a message and an exception whose arguments leave their stream in
+// hex / fixed state and filled with text.  Nothing of it may show in what is built afterwards.
+static void earlier_traffic()
+{
+    try
+    {
+        std::string a = nitro::format("{} {} {}") % Hex{ 255 } % Fix2{ 1.5 } % std::string("earlier");
+        (void)a;
+        nitro::except::exception e(Hex{ 4096 }, ' ', Fix2{ 2.25 }, std::string(" earlier"));
+        (void)e.what();
+        nitro::raise(Hex{ 17 }, Fix2{ 0.125 }, " raised earlier");
+    }
+    catch (std::exception&)
+    {
+    }
+}
+
 static std::string render(const std::string& api, F& f)
 {
     if (api == "stream" || api == "args+stream")
@@ -224,6 +241,7 @@ static std::string do_exc(const std::string& api, std::vector<std::unique_ptr<Ar
 static std::string handle(const std::vector<std::string>& f)
 {
     const std::string& op = f.at(0);
+    earlier_traffic();
     if (op == "str")
     {
         auto args = parse_args(f.at(3));
